@@ -325,3 +325,59 @@ PROPS["C16"] = simple(
                "many lines as the height in force when it was emitted, with the highlighted block centred when it is shorter than the screen.",
     level_note="Trusted: kit/term line splitting; the height in force is read inside the output callback, i.e. inside the call that emits the frame (sessions are sequential, so it is unambiguous).",
 )
+
+
+def c20_variants(tier, seed, s):
+    import os, random, shutil
+    dump = os.path.join(s.bin, "dumphook")
+    # a program literally named like a placeholder, found through PATH
+    special = os.path.join(s.dir, "pathbin")
+    os.makedirs(special, exist_ok=True)
+    for name in ("%url", "%mimetype"):
+        shutil.copy(dump, os.path.join(special, name))
+    rnd = random.Random(seed)
+    hooks = [
+        [dump, "%url"],
+        [dump],
+        [dump, "%mimetype", "%url", "%supertype", "%subtype"],
+        [dump, "--url=%url", "%url%url", " %url", "%URL", "x%mimetype"],
+        [dump, "%url", "%url", "-", "%subtype", "%subtype"],
+        [dump, "-c", "echo $0 $1; %url", "%supertype"],
+        ["%url", "%url", "%mimetype"],
+        ["%mimetype", "a b", ""],
+        [dump, "%supertype", "%mimetype"],
+        [dump, "", "%url", ""],
+        [dump, "%subtype"],
+        [dump, "--", "%url", "%mimetype;%subtype", "$(id)", "`id`"],
+    ]
+    if tier == "thorough":
+        atoms = ["%url", "%mimetype", "%supertype", "%subtype", "--url=%url", "%url ", "", "-", "--", "x", "%", "%%url", "%urls", "a b", "'", "\"", "$HOME", "*"]
+        for i in range(48):
+            hooks.append([dump] + [rnd.choice(atoms) for _ in range(rnd.randint(0, 6))])
+    out = []
+    for i, h in enumerate(hooks):
+        env = {}
+        if not h[0].startswith("/"):
+            env["PATH"] = special + ":" + os.environ.get("PATH", "/usr/bin:/bin")
+        out.append(dict(name="hook%02d" % i, config=dict(preload=3, timeout=5, cache=128, hook=h), env=env, shards=1))
+    return out
+
+
+PROPS["C20"] = simple(
+    "ui", "TestVerifC20", "exploration",
+    "one process per hook configuration (12 quick / 60 thorough): placeholders first, last, repeated, absent, embedded in longer arguments ('--url=%url', '%url%url', ' %url', '%URL'), "
+    "empty arguments, a 1-element hook, shell-looking arguments, and programs literally named %url / %mimetype found through PATH; worlds whose posts, attachments, bios, profile pictures "
+    "and banners carry 30 kinds of hostile links (spaces, quotes, backslashes, leading dashes, $(), backticks, ';', '|&<>', glob characters, text that is itself a placeholder, %0A, 4 KB, "
+    "non-http schemes, relative and unparsable references) with valid, missing, malformed and hostile media types; on every highlighted item o / p / b / 1..5+Enter are pressed (40 quick / "
+    "150 thorough checked opens per configuration). Non-trivial: every checked open; distinct = (hook, link, media type).",
+    variants=c20_variants,
+    tools=["dumphook"],
+    parallel=dict(quick=12, thorough=16),
+    floor=dict(evaluations=400, distinct=50, opens_checked=300),
+    timeout=dict(quick=600, thorough=2400),
+    technique="runtime monitor at the process boundary: a dump program configured as the media hook records argv and stdin of every spawn; compared with the argument-wise substitution of the configured hook",
+    level_text="Every spawn is observed from inside the spawned process: argv must equal the configured hook with only exact placeholder arguments at index >= 1 replaced by the link / media type parts "
+               "that the highlighted item's public accessors return, stdin must carry the link exactly when no %url argument exists, exactly one process per open, none when there is no link; "
+               "a marker file would reveal shell interpretation. Sampled over hook configurations and link strings.",
+    level_note="Trusted: veriftools/dumphook and the expectation function in harness/ui/verif_c20_test.go. Which link belongs to a number is C12's subject; here the link is taken from the item's public accessor.",
+)
